@@ -1,7 +1,12 @@
 import FxVerif.Model.C10
 import FxVerif.Model.Util
-/-! line-protocol driver for the C10 dispatcher model:
-`disp <kind> <method> <methodIdHex> <writer> <addr> <entries|->` → ran | blocked:readonly | blocked:disabled -/
+/-! line-protocol driver for the C10 dispatcher model (everything goes through `runGen`, i.e. the regenerated step order,
+governance-check program, closures and `decrementAllowance`):
+
+* `disp <kind> <method> <methodIdHex> <writer> <addr> <entries|->` → ran | blocked:readonly | blocked:disabled   (stateless)
+* `set shares <a> <n>` | `set allow <a> <b> <n>` | `set bal <a> <n>` | `set pool <id> <sender> <amount>` → ok
+* `h <kind> <caller> <origin> <addr> <methodIdHex> <entries|-> <method> <args…>` → `<status> <observed values>`   (stateful history)
+-/
 open FxVerif FxVerif.Util FxVerif.Gen.C09 FxVerif.Model.C10
 
 def kindOf : String → Option Kind
@@ -17,23 +22,102 @@ def callOf (m : String) : Call :=
   | "bridgeCall" => .bridgeCall 2 3 0 | "executeClaim" => .executeClaim 0 | n => .view n
 
 def w0 : World := ⟨fun _ => 10, fun _ => 10, fun _ => 0, fun _ => 0, fun _ _ => 10, [⟨1, 1, 5⟩], 2⟩
+def wInit : World := ⟨fun _ => 0, fun _ => 0, fun _ => 0, fun _ => 0, fun _ _ => 0, [], 1000000⟩
 
-def step (st : Unit) (line : String) : Unit × String :=
+def nats (ws : List String) : Option (List Nat) := ws.mapM String.toNat?
+
+/-- history call: method name + decimal arguments -/
+def hcallOf (m : String) (args : List String) : Option Call :=
+  match m, nats args with
+  | "delegateV2", some [a] => some (.delegate a)
+  | "undelegateV2", some [a] => some (.undelegate a)
+  | "withdraw", some [] => some .withdraw
+  | "approveShares", some [sp, s] => some (.approve sp s)
+  | "transferShares", some [t, s] => some (.transferShares t s)
+  | "transferFromShares", some [f, t, s] => some (.transferFromShares f t s)
+  | "cancelSendToExternal", some [i] => some (.cancelSend i)
+  | "increaseBridgeFee", some [i, f] => some (.increaseFee i f)
+  | "view", _ => match args with | [n] => some (.view n) | _ => none
+  | _, _ => none
+
+def insertSorted (e : PoolTx) : List PoolTx → List PoolTx
+  | [] => [e]
+  | x :: r => if e.id ≤ x.id then e :: x :: r else x :: insertSorted e r
+
+def showPool (p : List PoolTx) : String :=
+  let s := p.foldl (fun acc e => insertSorted e acc) []
+  if s.isEmpty then "-" else ",".intercalate (s.map (fun e => s!"{e.id}:{e.sender}:{e.amount}"))
+
+def isShareMove : Call → Bool
+  | .transferShares _ _ | .transferFromShares _ _ _ => true
+  | _ => false
+
+def statusOf (call : Call) (r : Res) : String :=
+  match r.out with
+  | .ok _ => if r.executed then "ran:ok" else "not-run"
+  | .error .writeProtection => "blocked:readonly"
+  | .error .disabled => "blocked:disabled"
+  | .error .unknownMethod => "unknown-method"
+  | .error .unknownStep => "unknown-step"
+  | .error .allowance => if isShareMove call then "ran:err:allowance" else "ran:err"
+  | .error .shares => if isShareMove call then "ran:err:shares" else "ran:err"
+  | .error .method => "ran:err"
+
+def observe (c : Addr) (call : Call) (w : World) : String :=
+  match call with
+  | .approve sp _ => s!"al={w.allow c sp} sa={w.shares c} sb={w.shares sp}"
+  | .transferShares t _ => s!"al={w.allow c t} sa={w.shares c} sb={w.shares t}"
+  | .transferFromShares f t _ => s!"al={w.allow f c} sa={w.shares f} sb={w.shares t}"
+  | .delegate _ | .undelegate _ | .withdraw => s!"sa={w.shares c}"
+  | .cancelSend _ | .increaseFee _ _ => s!"pool={showPool w.pool}"
+  | _ => "-"
+
+def entriesOf (ents : String) : List (List Char) :=
+  if ents == "-" then [] else (ents.splitOn ",").map String.toList
+
+def step (st : World) (line : String) : World × String :=
   match words line with
-  | "reset" :: _ => (st, "ok")
+  | "reset" :: _ => (wInit, "ok")
+  | ["set", "shares", a, n] =>
+    match nats [a, n] with
+    | some [a, n] => ({ st with shares := upd st.shares a n }, "ok")
+    | _ => (st, "bad-op")
+  | ["set", "bal", a, n] =>
+    match nats [a, n] with
+    | some [a, n] => ({ st with bal := upd st.bal a n }, "ok")
+    | _ => (st, "bad-op")
+  | ["set", "allow", a, b, n] =>
+    match nats [a, b, n] with
+    | some [a, b, n] => ({ st with allow := upd2 st.allow a b n }, "ok")
+    | _ => (st, "bad-op")
+  | ["set", "pool", i, s, n] =>
+    match nats [i, s, n] with
+    | some [i, s, n] => ({ st with pool := ⟨i, s, n⟩ :: st.pool }, "ok")
+    | _ => (st, "bad-op")
   | ["disp", kind, m, mid, _w, addr, ents] =>
     match kindOf kind with
     | some k =>
       match readonlyFlag k with
       | some ro =>
-        let dis := if ents == "-" then [] else (ents.splitOn ",").map String.toList
-        match run disabledCheck minfos dis ro addr.toList mid.toList ⟨1, 9⟩ (callOf m) w0 with
+        let r := runGen (entriesOf ents) ro addr.toList mid.toList ⟨1, 9⟩ (callOf m) w0
+        match r.out with
         | .error .writeProtection => (st, "blocked:readonly")
         | .error .disabled => (st, "blocked:disabled")
         | .error .unknownMethod => (st, "unknown-method")
-        | _ => (st, "ran")
+        | .error .unknownStep => (st, "unknown-step")
+        | _ => (st, if r.executed then "ran" else "not-run")
       | none => (st, "no-readonly-fact")
     | none => (st, "bad-op")
+  | "h" :: kind :: caller :: origin :: addr :: mid :: ents :: m :: args =>
+    match kindOf kind, nats [caller, origin], hcallOf m args with
+    | some k, some [c, o], some call =>
+      match readonlyFlag k with
+      | some ro =>
+        let r := runGen (entriesOf ents) ro addr.toList mid.toList ⟨c, o⟩ call st
+        let st' := match r.out with | .ok w' => w' | .error _ => st
+        (st', statusOf call r ++ " " ++ observe c call st')
+      | none => (st, "no-readonly-fact")
+    | _, _, _ => (st, "bad-op")
   | _ => (st, "bad-op")
 
-def main : IO Unit := runDriver step ()
+def main : IO Unit := runDriver step wInit
